@@ -133,21 +133,41 @@ func implExec(flags uint64, unlock, lock []byte, txd string, idx int, sats uint6
 				scribble(s)
 			}
 		})
+		// the After… snapshot of a push / pop must show exactly one item more / fewer than the Before… one (on the data
+		// and alt stacks together); otherwise the event is recorded as 'Y' / 'X', letters outside the lifecycle language
+		depth := func(s *interpreter.State) int { return len(s.DataStack) + len(s.AltStack) }
+		before := 0
 		d.AttachBeforeStackPush(func(s *interpreter.State, b []byte) {
+			before = depth(s)
 			res.events = append(res.events, "p")
 			if mode == 2 {
 				scribble(s)
 			}
 		})
 		d.AttachAfterStackPush(func(s *interpreter.State, b []byte) {
-			res.events = append(res.events, "P")
+			if depth(s) == before+1 {
+				res.events = append(res.events, "P")
+			} else {
+				res.events = append(res.events, "Y")
+			}
 			if mode == 2 {
 				scribble(s)
 			}
 		})
-		d.AttachBeforeStackPop(ev("q"))
+		d.AttachBeforeStackPop(func(s *interpreter.State) {
+			useAccessors(s)
+			before = depth(s)
+			res.events = append(res.events, "q")
+			if mode == 2 {
+				scribble(s)
+			}
+		})
 		d.AttachAfterStackPop(func(s *interpreter.State, b []byte) {
-			res.events = append(res.events, "Q")
+			if depth(s) == before-1 {
+				res.events = append(res.events, "Q")
+			} else {
+				res.events = append(res.events, "X")
+			}
 			if mode == 2 {
 				scribble(s)
 			}
